@@ -312,7 +312,8 @@ fn parse_at_rule(
                             ss.append_token(st, input, Some(peek.token.clone()));
                             match xs {
                                 "layer" => {
-                                    convert_class_names_and_rpx_in_block(input, ss);
+                                    // a layer name such as `a.b` contains no class selector
+                                    convert_rpx_in_block(input, ss, None);
                                 }
                                 "supports" => {
                                     let st =
@@ -323,6 +324,15 @@ fn parse_at_rule(
                                 }
                                 _ => unreachable!(),
                             }
+                            let st = StepToken::wrap(Token::CurlyBracketBlock, peek.position);
+                            let close = ss.append_nested_block(st, input);
+                            close_stack.push(close);
+                        }
+                        Token::Ident(x) if close_stack.is_empty() && x.eq_ignore_ascii_case("layer") => {
+                            // the bare `layer` keyword: an anonymous layer
+                            input.next().ok();
+                            let st = StepToken::wrap(Token::AtKeyword(x.clone()), peek.position);
+                            ss.append_token(st, input, Some(peek.token.clone()));
                             let st = StepToken::wrap(Token::CurlyBracketBlock, peek.position);
                             let close = ss.append_nested_block(st, input);
                             close_stack.push(close);
